@@ -8,6 +8,7 @@ The general evaluator is the expr-lang behaviour table `Cond.generalEval` (valid
 correspondence only, see `cfg/C12.py` assumptions).
 -/
 import SsqlVerif.Proofs.Cond
+import SsqlVerif.Model.CondShape
 import SsqlVerif.Spec.Cond
 import SsqlVerif.Generated.Facts
 set_option autoImplicit false
@@ -109,8 +110,15 @@ example : fastEval ⟨['x'], .eq, .int 9007199254740993⟩ [(['x'], .int (.i64 9
 end C12
 
 /-- tie to the source (regenerated on every run from the repo by factsgen): the two regexes the
-recognisers of `Model/CondShape.lean` were written for, the split regex, and 2^53 -/
+recognisers of `Model/CondShape.lean` were written for and the split regex; the bound of the value
+guard of `toFloat64Fast` (2^53); the column names `tryFastCompare` leaves to expr-lang; the bytes
+(backslash, CR) that make a quoted literal non-raw -/
 theorem C12.facts_regexes :
     Facts.condition_fastFieldOpNum = "^\\s*([A-Za-z_][A-Za-z0-9_]*)\\s*(>=|<=|!=|<>|==|=|>|<)\\s*(-?\\d+(?:\\.\\d+)?)\\s*$" ∧
     Facts.condition_fastFieldOpStr = "^\\s*([A-Za-z_][A-Za-z0-9_]*)\\s*(>=|<=|!=|<>|==|=|>|<)\\s*'([^']*)'\\s*$" ∧
     Facts.condition_fastAndOr = "\\s*(&&|\\|\\|)\\s*" := by decide
+
+theorem C12.facts_guards :
+    Facts.condition_maxExactFloatInt = Cond.exactLimit ∧
+    Facts.condition_isExprLiteralName_strlits.map String.toList = Cond.litNames ∧
+    Facts.condition_isRawStringLiteral_strlits = ["\\\r"] := by decide
